@@ -45,7 +45,8 @@ ActionInfo::ActionInfo(ActionType t, ShapeRef *s, const Polygon& p, bool fM)
 
 ActionInfo::ActionInfo(ActionType t, ShapeRef *s)
     : type(t),
-      objPtr(s)
+      objPtr(s),
+      firstMove(false)
 
 {
     COLA_ASSERT((type == ShapeAdd) || (type == ShapeRemove) ||
@@ -56,7 +57,8 @@ ActionInfo::ActionInfo(ActionType t, ShapeRef *s)
 ActionInfo::ActionInfo(ActionType t, JunctionRef *j, const Point& p)
     : type(t),
       objPtr(j),
-      newPosition(p)
+      newPosition(p),
+      firstMove(false)
 {
     COLA_ASSERT(type == JunctionMove);
 }
@@ -64,7 +66,8 @@ ActionInfo::ActionInfo(ActionType t, JunctionRef *j, const Point& p)
 
 ActionInfo::ActionInfo(ActionType t, JunctionRef *j)
     : type(t),
-      objPtr(j)
+      objPtr(j),
+      firstMove(false)
 {
     COLA_ASSERT((type == JunctionAdd) || (type == JunctionRemove) ||
             (type == JunctionMove));
@@ -72,7 +75,8 @@ ActionInfo::ActionInfo(ActionType t, JunctionRef *j)
 
 ActionInfo::ActionInfo(ActionType t, ConnRef *c)
     : type(t),
-      objPtr(c)
+      objPtr(c),
+      firstMove(false)
 {
     COLA_ASSERT(type == ConnChange);
 }
@@ -80,7 +84,8 @@ ActionInfo::ActionInfo(ActionType t, ConnRef *c)
 
 ActionInfo::ActionInfo(ActionType t, ShapeConnectionPin *p)
     : type(t),
-      objPtr(p)
+      objPtr(p),
+      firstMove(false)
 {
     COLA_ASSERT(type == ConnectionPinChange);
 }
